@@ -43,6 +43,7 @@ func C14(c *Ctx) {
 	c.c14Tuples()
 	c.c14Index()
 	c.sliceBoundsRule("C14-11")
+	c.varIndexRule("C14-12")
 	c.c14Errors()
 	c.c14NilPkg()
 	c.c14Assert()
